@@ -3,10 +3,16 @@ import itertools
 
 from .. import cmodel as M
 from .. import gen
-from ..runner import CheckFailure, Stats, hyp_search
+from ..oracle import parse_outcome
+from ..runner import CheckFailure, Stats, fail, hyp_search
 from ..unitcheck import EXPR_CONTEXTS, check_unit
 
 ID = "C02"
+RULE_POSITION = (
+    " Position in the token stream: a fixed unit (grouping parentheses, casts, sizeof in both forms, a compound literal, parenthesised "
+    "callee and declarators, typedef use) is parsed behind N empty declarations for every N that moves one of its tokens onto a "
+    "power-of-two or round decimal token index up to 131 072 (quick) / 262 144 (thorough); the tree must equal the unit's own tree."
+)
 RULE = (
     "Expression trees of an independent model (18 binary, 11 assignment operators, ?:, comma, 9 prefix, 2 postfix operators, "
     "cast, sizeof/_Alignof(type), subscript, call, ./->, compound literal, offsetof; constants of every kind) are rendered with "
@@ -14,7 +20,7 @@ RULE = (
     "grammar assigns (expected AST derived from the model, never from pycparser). Exhaustive: all trees with <= 2 (quick) / "
     "<= 3 (thorough) operator nodes over one leaf; Hypothesis-generated trees up to depth 6 beyond. Non-trivial: >= 2 "
     "operator nodes of different grammar levels, or a cast/sizeof/compound-literal next to a parenthesis; distinct by "
-    "construction (enumeration) / by hash of the rendered text (random)."
+    "construction (enumeration) / by hash of the rendered text (random)." + RULE_POSITION
 )
 ASSUMPTIONS = ["the expected AST for each construct is the one README/_c_ast.cfg/c_ast docstrings describe (vlib/cmodel.py Expect)"]
 
@@ -173,6 +179,45 @@ def random_shard(arg):
     return st
 
 
+POSITION_UNIT = (
+    "typedef int T; struct S { int m; } s, *p; int a, b, c, d, (*fp)(int);\n"
+    "int r = (a + b) * c - (d); int q = (T)(a) + (*fp)(b) + sizeof(T) * sizeof (a) + (struct S){ (a) }.m + (p)->m;\n"
+    "T (*g(T (x)))(int) { T * y = (T *)(&x); return (fp); }\n"
+)
+
+
+def position_shard(arg):
+    """The same declarations behind N empty declarations (';'), for every N that
+    moves each of their tokens across a power-of-two (and round decimal) token
+    index: the tree must not depend on where in the token stream it stands."""
+    from pycparser import c_parser
+
+    from .. import reflex
+    from ..astdump import dump, first_difference
+
+    boundary = arg
+    st = Stats()
+    ntok = len(reflex.pp_tokens(POSITION_UNIT))
+    ref = dump(c_parser.CParser().parse(POSITION_UNIT, "f.c"))
+    for d in range(0, ntok + 2):
+        n = boundary - d
+        if n < 0:
+            break
+        src = ";" * n + "\n" + POSITION_UNIT
+        st.evaluations += 1
+        out = parse_outcome(src, "f.c", ("f.c",))
+        case = ("position", n)
+        if out[0] != "ast":
+            st.failures.append(dict(subcheck="expr", case=case, text="';' x %d + unit" % n, detail="the unit is rejected behind %d empty declarations (its token %d is token %d of the input): %r" % (n, d, boundary, out[1:]), sig="position-rejected"))
+            break
+        got = dump(out[1])
+        if got != ref:
+            st.failures.append(dict(subcheck="expr", case=case, text="';' x %d + unit" % n, detail="behind %d empty declarations the tree differs at %s" % (n, first_difference(ref, got)), sig="position-differs"))
+            break
+        st.nontrivial += 1
+    return st
+
+
 def run(ctx):
     # exhaustive part
     jobs = [(1, k[0], "full", False) for k in KINDS] + [(2, k[0], "full", False) for k in KINDS]
@@ -186,10 +231,25 @@ def run(ctx):
     ctx.map(enum_shard, jobs)
     ctx.map(leaf_shard, list(range(8)))
     ctx.map(random_shard, [(s, ctx.pick(1500, 30000)) for s in ctx.shard_seeds(16)])
+    boundaries = [131072, 65536, 100000, 32768, 16384, 10000, 8192, 4096, 2048, 1024, 1000, 512, 256, 128, 100, 64]
+    if not ctx.quick:
+        boundaries = [262144, 200000, 3 * 65536] + boundaries
+    ctx.map(position_shard, boundaries)
+    bounds += "; a fixed unit behind N empty declarations for every N that moves one of its tokens onto token index %s" % sorted(boundaries)
     ctx.exhaustive = True
     ctx.extra["exhaustive_bounds"] = bounds
 
 
 def replay(subcheck, case):
+    if case and case[0] == "position":
+        from pycparser import c_parser
+
+        from ..astdump import dump
+
+        ref = dump(c_parser.CParser().parse(POSITION_UNIT, "f.c"))
+        out = parse_outcome(";" * case[1] + "\n" + POSITION_UNIT, "f.c", ("f.c",))
+        if out[0] != "ast" or dump(out[1]) != ref:
+            fail("expr", case, "';' x %d + unit" % case[1], "the unit parses differently behind %d empty declarations" % case[1], "position-differs")
+        return
     e, ci, mode, pm = case
     check_expr(e, ci, mode, Stats(), pm, subcheck=subcheck)
